@@ -11,6 +11,7 @@ import ast
 
 from ..core import Rule, AnalysisError, norm
 from .. import pyfront, pycalls, cfold, rx, pyutil
+from . import rbroles
 
 RB = "python/digital_rf/ringbuffer.py"
 BASE = "DigitalRFRingbufferHandlerBase"
@@ -27,47 +28,75 @@ def _anc(m, n):
 
 def r1_only_tracked_paths_deleted(repo=None):
     r = Rule("C16.R1", "only tracked, grammar-matched data/metadata paths are ever deleted (effects + def-use + rx)")
-    m = pyfront.mod("ringbuffer", repo)
+    ro = rbroles.roles(repo)
+    m = ro.m
     n_mut = 0
+    # every mutator call site is judged in the context of each function it ends up in once private helpers are inlined; a site
+    # inside a private helper is not judged on its own when the helper is inlined somewhere (its callers supply the path)
+    verdicts = {}       # (line, col) -> [(context qualname, ok, text, call)]
+    inlined_somewhere = set()
+    views = {}
     for q, f in m.functions.items():
         if "<locals>" in q:
             continue
+        v = m.flat(q, depth=4)
+        views[q] = v
+        inlined_somewhere |= set(v.inlined)
+    for q, v in views.items():
+        f = v.fn()
         muts = pycalls.mutator_calls(f)
         if not muts:
             continue
-        # locals bound to a record popped from the record table, and to the directory of such a record's path
+        env = pyutil.single_alias_env(f)
         recs = {n.targets[0].id for n in pyfront.walk_no_nested(f) if isinstance(n, ast.Assign) and isinstance(n.targets[0], ast.Name)
                 and isinstance(n.value, ast.Call) and pyfront.call_name(n.value) == "self.records.pop"}
-        dirs = set()
-        for n in pyfront.walk_no_nested(f):
-            if isinstance(n, ast.Assign) and isinstance(n.value, ast.Call) and pyfront.call_name(n.value) in ("os.path.split", "os.path.dirname") \
-                    and n.value.args and isinstance(n.value.args[0], ast.Attribute) and n.value.args[0].attr == "path" \
-                    and isinstance(n.value.args[0].value, ast.Name) and n.value.args[0].value.id in recs:
-                t = n.targets[0]
-                if isinstance(t, ast.Tuple) and isinstance(t.elts[0], ast.Name):
-                    dirs.add(t.elts[0].id)
-                elif isinstance(t, ast.Name) and pyfront.call_name(n.value) == "os.path.dirname":
-                    dirs.add(t.id)
+
+        def rec_path(e):
+            e = pyutil.dealias(e, env) if isinstance(e, ast.Name) else e
+            return isinstance(e, ast.Attribute) and e.attr == "path" and isinstance(e.value, ast.Name) and e.value.id in recs
+
+        def rec_dir(e):
+            e = pyutil.dealias(e, env) if isinstance(e, ast.Name) else e
+            if isinstance(e, ast.Call) and pyfront.call_name(e) == "os.path.dirname" and e.args and rec_path(e.args[0]):
+                return True
+            if isinstance(e, ast.Name):
+                for n in pyfront.walk_no_nested(f):
+                    if isinstance(n, ast.Assign) and isinstance(n.value, ast.Call) and pyfront.call_name(n.value) in ("os.path.split", "os.path.dirname") \
+                            and n.value.args and rec_path(n.value.args[0]):
+                        t = n.targets[0]
+                        if isinstance(t, ast.Tuple) and isinstance(t.elts[0], ast.Name) and t.elts[0].id == e.id:
+                            return True
+                        if isinstance(t, ast.Name) and t.id == e.id and pyfront.call_name(n.value) == "os.path.dirname":
+                            return True
+            return False
         for call, what in muts:
-            n_mut += 1
             arg = call.args[0] if call.args else None
-            site = "%s:%s %s `%s`" % (m.rel, call.lineno, q, norm(ast.unparse(call)))
-            if what == "os.remove" and isinstance(arg, ast.Attribute) and arg.attr == "path" and isinstance(arg.value, ast.Name) \
-                    and arg.value.id in recs:
-                r.ok(site, "deletes the path of a record taken out of self.records")
-            elif what == "os.rmdir" and isinstance(arg, ast.Name) and arg.id in dirs:
-                r.ok(site, "removes only the (empty) directory that held the expired file")
-            else:
-                r.violation(m.rel, q, norm(ast.unparse(call)), "the ringbuffer deletes/changes a path that is not taken from its "
-                            "record table (a properties file, a tmp. file or a path outside the watched tree could be deleted)",
-                            line=call.lineno)
+            ok = (what == "os.remove" and arg is not None and rec_path(arg)) or (what == "os.rmdir" and arg is not None and rec_dir(arg))
+            verdicts.setdefault((call.lineno, call.col_offset), []).append((q, ok, what, call))
+    for pos, vs in sorted(verdicts.items()):
+        n_mut += 1
+        owner = None
+        for q0, f0 in m.functions.items():
+            if "<locals>" not in q0 and f0.lineno <= pos[0] <= (f0.end_lineno or f0.lineno):
+                owner = q0
+        judged = [x for x in vs if not (x[0] == owner and owner.split(".")[-1] in inlined_somewhere and len(vs) > 1)]
+        bad = [x for x in judged if not x[1]]
+        call = vs[0][3]
+        site = "%s:%s %s `%s`" % (m.rel, pos[0], owner, norm(ast.unparse(call)))
+        if not bad:
+            r.ok(site, "acts on the path (or the emptied directory) of a record taken out of self.records, in every calling context (%s)" % (
+                ", ".join(sorted({x[0] for x in judged}))))
+        else:
+            r.violation(m.rel, owner, norm(ast.unparse(call)), "the ringbuffer deletes/changes a path that is not taken from its "
+                        "record table (a properties file, a tmp. file or a path outside the watched tree could be deleted) [context %s]" % bad[0][0],
+                        line=pos[0])
     if n_mut < 3:
         raise AnalysisError("ringbuffer.py: %d mutator call sites found, 3 confirmed" % n_mut)
     # records are built only in _get_file_record, after a successful match that yielded a `secs` group
     fr = [c for c in ast.walk(m.tree) if isinstance(c, ast.Call) and (pyfront.call_name(c) or "").endswith("FileRecord")]
     builders = {m.qualname_of(c) for c in fr}
-    if builders == {BASE + "._get_file_record"}:
-        q = BASE + "._get_file_record"
+    if builders == {ro.q(ro.make_record)}:
+        q = ro.q(ro.make_record)
         g = m.cfg(q)
         f = m.fn(q)
         ret = [n for n in g.nodes if n.kind == "return" and "FileRecord" in n.label]
@@ -76,7 +105,12 @@ def r1_only_tracked_paths_deleted(repo=None):
         secs_ok = any(isinstance(c, ast.Call) and isinstance(c.func, ast.Attribute) and c.func.attr == "group"
                       and c.args and pyfront.const(c.args[0]) == "secs" for c in ast.walk(f)) and any(
             isinstance(lp, ast.For) and norm(ast.unparse(lp.iter)) == "self.regexes" for lp in ast.walk(f))
-        if ret and kv and secs_ok and all(pyutil.truth_guarded(g, x.id, kv) for x in ret):
+        G = [n.id for n in g.nodes if n.ast is not None and not isinstance(n.ast, (ast.For, ast.Try, ast.If)) and any(
+            isinstance(c, ast.Call) and isinstance(c.func, ast.Attribute) and c.func.attr == "group" and c.args
+            and pyfront.const(c.args[0]) == "secs" for c in ast.walk(n.ast))]
+        structural = bool(G) and bool(ret) and not any(x.id in g.reach([g.entry.id], avoid=G) for x in ret) and not any(
+            x.id in g.reach([b_ for i in G for b_, lab in g.succ[i] if lab == "exc"], avoid=G) for x in ret)
+        if ret and kv and secs_ok and (structural or all(pyutil.truth_guarded(g, x.id, kv) for x in ret)):
             r.ok("%s:%s %s" % (m.rel, ret[0].line, q), "a FileRecord is built only after one of the handler's regexes matched the path and "
                  "yielded a `secs` group (`%s` is not None)" % kv)
         elif not ret or not kv:
@@ -86,7 +120,7 @@ def r1_only_tracked_paths_deleted(repo=None):
                         "match the data-file grammar", line=ret[0].line)
         r.ok("%s FileRecord" % m.rel, "constructed only in %s: every record handled by the ringbuffer stems from a grammar match" % q)
     else:
-        r.violation(m.rel, "-", "FileRecord built in %s" % sorted(builders), "records are created outside _get_file_record", line=None)
+        r.violation(m.rel, "-", "FileRecord built in %s" % sorted(builders), "records are created outside %s" % ro.make_record, line=None)
     # the base handler is constructed with properties excluded (constants)
     init = m.fn(BASE + ".__init__")
     sup = [c for c in ast.walk(init) if isinstance(c, ast.Call) and pyfront.call_name(c) == "super().__init__"]
@@ -178,9 +212,10 @@ def _returns(fn):
 
 def r2_accounting_pairs_with_mutation(repo=None):
     r = Rule("C16.R2", "size accounting is adjusted exactly when the queue / record table was actually changed (must-pass across the override)")
-    m = pyfront.mod("ringbuffer", repo)
-    SE = "SizeExpirer"
-    for name in ("_add_to_queue", "_remove_from_queue", "_modify_record"):
+    ro = rbroles.roles(repo)
+    m = ro.m
+    SE = ro.size_mixin
+    for name in (ro.enq, ro.deq, ro.modify):
         oq, bq = "%s.%s" % (SE, name), "%s.%s" % (BASE, name)
         of, bf = m.fn(oq), m.fn(bq)
         og, bg = m.cfg(oq), m.cfg(bq)
@@ -191,6 +226,8 @@ def r2_accounting_pairs_with_mutation(repo=None):
         flag = None
         if isinstance(sup[0].ast, ast.Assign) and isinstance(sup[0].ast.targets[0], ast.Name):
             flag = sup[0].ast.targets[0].id
+        elif sup[0].kind == "cond":
+            flag = "<cond>"       # `if super().hook(rec): ...` - the call result is tested directly
         # mutation sites in the delegate
         qlocals = {x.targets[0].id for x in pyfront.walk_no_nested(bf) if isinstance(x, ast.Assign) and isinstance(x.targets[0], ast.Name)
                    and norm(ast.unparse(x.value)).startswith("self.queues[")}
@@ -201,7 +238,7 @@ def r2_accounting_pairs_with_mutation(repo=None):
                     recv = norm(ast.unparse(c.func.value))
                     if recv in qlocals or recv.startswith("self.queues[") or recv == "self.records":
                         return True
-                if pyfront.call_name(c) in ("self._add_record",):
+                if pyfront.call_name(c) in ("self." + ro.add_record,):
                     return True
             a = n.ast
             if isinstance(a, (ast.Assign, ast.Delete)):
@@ -235,8 +272,14 @@ def r2_accounting_pairs_with_mutation(repo=None):
             continue
         # flag idiom: update is control dependent on the flag; delegate's truthy returns <=> mutation
         ctrl = None
-        pos = all(pyutil.truth_guarded(og, n.id, flag, True) for n in upd)
-        negd = all(pyutil.truth_guarded(og, n.id, flag, False) for n in upd)
+        if flag == "<cond>":
+            tsucc = og.reach([b_ for b_, lab in og.succ[sup[0].id] if lab == "T"], skip_labels=("exc",))
+            fsucc = og.reach([b_ for b_, lab in og.succ[sup[0].id] if lab == "F"], skip_labels=("exc",))
+            pos = all(n.id in tsucc and n.id not in fsucc for n in upd)
+            negd = all(n.id in fsucc and n.id not in tsucc for n in upd)
+        else:
+            pos = all(pyutil.truth_guarded(og, n.id, flag, True) for n in upd)
+            negd = all(pyutil.truth_guarded(og, n.id, flag, False) for n in upd)
         if pos or negd:
             ctrl = (None, negd and not pos)
         if ctrl is None:
@@ -271,11 +314,11 @@ def r2_accounting_pairs_with_mutation(repo=None):
             r.ok("%s:%s %s" % (m.rel, upd[0].line, oq), "size update guarded by the flag of base.%s (truthy = %s); every truthy return "
                  "follows a mutation, no falsy return does" % (name, meaning))
     # overwriting a tracked record goes through _modify_record (which re-accounts its size)
-    q = BASE + "._add_record"
+    q = ro.q(ro.add_record)
     g = m.cfg(q)
     store = [n for n in g.nodes if isinstance(n.ast, ast.Assign) and norm(ast.unparse(n.ast.targets[0])) == "self.records[rec.path]"]
     test = [n for n in g.nodes if n.kind == "cond" and n.label == "rec.path in self.records"]
-    mod = [n.id for n in g.nodes if any(pyfront.call_name(c) == "self._modify_record" for c in pyfront.node_calls(n))]
+    mod = [n.id for n in g.nodes if any(pyfront.call_name(c) == "self." + ro.modify for c in pyfront.node_calls(n))]
     if not store:
         raise AnalysisError("%s: self.records[rec.path] = rec not found" % q)
     if test and mod and all(s.id not in g.reach([g.entry.id], avoid=[test[0].id], skip_labels=("exc",)) for s in store) and \
@@ -291,9 +334,11 @@ def r2_accounting_pairs_with_mutation(repo=None):
 
 def r3_oldest_first_and_owners(repo=None):
     r = Rule("C16.R3", "victims are taken from the head ([0]) of a queue; queues and records are mutated only by their owners")
-    m = pyfront.mod("ringbuffer", repo)
-    queue_owner = {BASE + "._add_to_queue", BASE + "._remove_from_queue"}
-    rec_owner = {BASE + "._add_record", BASE + "._remove_record", BASE + "._expire_oldest_from_group", "SizeExpirer._modify_record"}
+    ro = rbroles.roles(repo)
+    m = ro.m
+    MIXINS = tuple(ro.mixins)
+    queue_owner = {ro.q(ro.enq), ro.q(ro.deq)}
+    rec_owner = {ro.q(ro.add_record), ro.q(ro.remove_record), ro.q(ro.expire_head), "%s.%s" % (ro.size_mixin, ro.modify)}
     n_sub = 0
     for q, f in m.functions.items():
         if not (q.startswith(BASE) or q.split(".")[0] in MIXINS):
@@ -314,7 +359,7 @@ def r3_oldest_first_and_owners(repo=None):
                 site = "%s:%s %s `%s`" % (m.rel, n.lineno, q, norm(ast.unparse(n)))
                 if cidx == 0:
                     r.ok(site, "head of the time-ordered queue (oldest)")
-                elif q == "TimeExpirer._queue_duration":
+                elif q.split(".")[0] in MIXINS and any(isinstance(d_, ast.Name) and d_.id == "staticmethod" for d_ in f.decorator_list):
                     r.ok(site, "newest element, used only to measure the queue's time span")
                 else:
                     r.violation(m.rel, q, norm(ast.unparse(n)), "an element other than the oldest is selected from a queue: a newer "
@@ -325,7 +370,7 @@ def r3_oldest_first_and_owners(repo=None):
                     if q in queue_owner:
                         r.ok("%s:%s %s `%s`" % (m.rel, n.lineno, q, norm(ast.unparse(n))[:50]), "queue mutated by its owner")
                     else:
-                        r.violation(m.rel, q, norm(ast.unparse(n))[:60], "a queue is modified outside _add_to_queue/_remove_from_queue: "
+                        r.violation(m.rel, q, norm(ast.unparse(n))[:60], "a queue is modified outside its insertion/removal hooks: "
                                     "the size/count accounting of the mixins is bypassed", line=n.lineno)
                 if n.func.attr in ("pop", "popitem", "clear", "update", "setdefault") and recv == "self.records":
                     if q in rec_owner:
@@ -344,7 +389,7 @@ def r3_oldest_first_and_owners(repo=None):
     if n_sub < 4:
         raise AnalysisError("only %d constant queue subscripts found" % n_sub)
     # the victim of _expire_oldest_from_group is the head
-    ef = m.fn(BASE + "._expire_oldest_from_group")
+    ef = m.fn(ro.q(ro.expire_head))
     head_vars = set()
     for n in pyfront.walk_no_nested(ef):
         if isinstance(n, ast.Assign) and norm(ast.unparse(n.value)) == "self.queues[group][0]" and isinstance(n.targets[0], ast.Tuple):
@@ -352,26 +397,28 @@ def r3_oldest_first_and_owners(repo=None):
     pops = [c for c in pyfront.walk_no_nested(ef) if isinstance(c, ast.Call) and pyfront.call_name(c) == "self.records.pop"]
     popped = {m.parents.get(c).targets[0].id for c in pops if isinstance(m.parents.get(c), ast.Assign)
               and isinstance(m.parents.get(c).targets[0], ast.Name)}
-    rm = [c for c in pyfront.walk_no_nested(ef) if isinstance(c, ast.Call) and pyfront.call_name(c) == "self._remove_from_queue"
+    rm = [c for c in pyfront.walk_no_nested(ef) if isinstance(c, ast.Call) and pyfront.call_name(c) == "self." + ro.deq
           and c.args and isinstance(c.args[0], ast.Name) and c.args[0].id in popped]
     if not pops:
-        raise AnalysisError("%s._expire_oldest_from_group: self.records.pop(...) not found" % BASE)
+        raise AnalysisError("%s: self.records.pop(...) not found" % ro.q(ro.expire_head))
     if len(pops) == 1 and pops[0].args and isinstance(pops[0].args[0], ast.Name) and pops[0].args[0].id in head_vars and rm:
-        r.ok("%s %s._expire_oldest_from_group" % (m.rel, BASE), "victim = head of the group's queue; its record is removed and the "
-             "(overridable) _remove_from_queue is used")
+        r.ok("%s %s" % (m.rel, ro.q(ro.expire_head)), "victim = head of the group's queue; its record is removed and the "
+             "(overridable) queue-removal hook is used")
     else:
-        r.violation(m.rel, BASE + "._expire_oldest_from_group", "victim selection", "the expired record is not the head of the group's queue",
-                    line=m.fn(BASE + "._expire_oldest_from_group").lineno)
+        r.violation(m.rel, ro.q(ro.expire_head), "victim selection", "the expired record is not the head of the group's queue",
+                    line=ef.lineno)
     r.guard(10)
     return r
 
 
 def r4_limits_reestablished(repo=None):
     r = Rule("C16.R4", "every configured limit is re-established after each addition (cooperative chain complete)")
-    m = pyfront.mod("ringbuffer", repo)
-    q = BASE + "._add_record"
+    ro = rbroles.roles(repo)
+    m = ro.m
+    MIXINS = tuple(ro.mixins)
+    q = ro.q(ro.add_record)
     g = m.cfg(q)
-    exp = [n.id for n in g.nodes if any(pyfront.call_name(c) == "self._expire" for c in pyfront.node_calls(n))]
+    exp = [n.id for n in g.nodes if any(pyfront.call_name(c) == "self." + ro.expire for c in pyfront.node_calls(n))]
     store = [n for n in g.nodes if isinstance(n.ast, ast.Assign) and norm(ast.unparse(n.ast.targets[0])) == "self.records[rec.path]"]
     if not exp or not store:
         raise AnalysisError("%s: _expire call or record store not found" % q)
@@ -385,7 +432,7 @@ def r4_limits_reestablished(repo=None):
     n_over = 0
     for mx in MIXINS:
         for name, f in m.methods(mx).items():
-            if name not in base_methods or name.startswith("_queue_duration"):
+            if name not in base_methods:
                 continue
             n_over += 1
             oq = "%s.%s" % (mx, name)
@@ -399,10 +446,19 @@ def r4_limits_reestablished(repo=None):
                             line=f.lineno)
             else:
                 r.ok("%s:%s %s" % (m.rel, f.lineno, oq), "delegates to the next class in the MRO on every normal path")
-            if name == "_expire":
+            if name == ro.expire:
                 loops = [s for s in ast.walk(f) if isinstance(s, ast.While)]
                 ifs = [s for s in pyfront.walk_no_nested(f) if isinstance(s, ast.If)]
-                if len(loops) == 1 and not ifs and any(isinstance(c, ast.Call) and (pyfront.call_name(c) or "").startswith("self._expire_oldest")
+                # the loop body expires the head of a queue: directly, or through a method of the mixin that does
+                def expires_head(callname, depth=0):
+                    if callname == "self." + ro.expire_head:
+                        return True
+                    if callname.startswith("self.") and depth < 2:
+                        h = m.methods(mx).get(callname[5:])
+                        if h is not None:
+                            return any(isinstance(c2, ast.Call) and expires_head(pyfront.call_name(c2) or "", depth + 1) for c2 in ast.walk(h))
+                    return False
+                if len(loops) == 1 and not ifs and any(isinstance(c, ast.Call) and expires_head(pyfront.call_name(c) or "")
                                                        for c in ast.walk(loops[0])):
                     r.ok("%s:%s %s" % (m.rel, loops[0].lineno, oq), "`while <limit exceeded>: expire oldest` (repeats until the limit holds)")
                 else:
@@ -411,12 +467,39 @@ def r4_limits_reestablished(repo=None):
     if n_over < 9:
         raise AnalysisError("only %d mixin overrides found, 10 confirmed" % n_over)
     fac = m.fn("DigitalRFRingbufferHandler")
-    src = norm(ast.unparse(fac))
-    order = [src.find("bases = (SizeExpirer,) + bases"), src.find("bases = (TimeExpirer,) + bases"), src.find("bases = (CountExpirer,) + bases")]
-    if src.find("bases = (DigitalRFRingbufferHandlerBase,)") >= 0 and all(o > 0 for o in order) and "cls = type('DigitalRFRingbufferHandler', bases" in src:
-        r.ok("%s:%s DigitalRFRingbufferHandler" % (m.rel, fac.lineno), "every selected mixin is prepended to the base class (mixins first in the MRO)")
+    tcalls = [c for c in ast.walk(fac) if isinstance(c, ast.Call) and pyfront.call_name(c) == "type" and len(c.args) == 3]
+    if len(tcalls) != 1 or not isinstance(tcalls[0].args[1], ast.Name):
+        raise AnalysisError("DigitalRFRingbufferHandler: type(name, bases, dict) with a bases variable not found")
+    bv = tcalls[0].args[1].id
+    init_ok = False
+    bad_compose = None
+    n_prepend = 0
+    for n in ast.walk(fac):
+        if isinstance(n, ast.Assign) and any(isinstance(t, ast.Name) and t.id == bv for t in n.targets):
+            v = n.value
+            if isinstance(v, ast.Tuple) and len(v.elts) == 1 and isinstance(v.elts[0], ast.Name) and v.elts[0].id == BASE:
+                init_ok = True
+            elif isinstance(v, ast.BinOp) and isinstance(v.op, ast.Add) and isinstance(v.right, ast.Name) and v.right.id == bv \
+                    and isinstance(v.left, ast.Tuple) and len(v.left.elts) == 1:
+                n_prepend += 1
+            else:
+                bad_compose = n
+        elif isinstance(n, ast.AugAssign) and isinstance(n.target, ast.Name) and n.target.id == bv:
+            bad_compose = n
+    # every mixin is offered: named directly in a prepend, or listed in the module-level table the prepending loop iterates over
+    named = {x.id for x in ast.walk(fac) if isinstance(x, ast.Name)}
+    for st in m.tree.body:
+        if isinstance(st, ast.Assign) and isinstance(st.targets[0], ast.Name) and st.targets[0].id in named:
+            named |= {x.id for x in ast.walk(st.value) if isinstance(x, ast.Name)}
+    missing = [mx for mx in MIXINS if mx not in named]
+    if init_ok and n_prepend >= 1 and bad_compose is None and not missing:
+        r.ok("%s:%s DigitalRFRingbufferHandler" % (m.rel, fac.lineno), "the class is composed by prepending each selected mixin to (base,): "
+             "mixins come first in the MRO")
     else:
-        r.violation(m.rel, "DigitalRFRingbufferHandler", "class composition", "a mixin is placed after the base class or not composed", line=fac.lineno)
+        x = bad_compose or fac
+        r.violation(m.rel, "DigitalRFRingbufferHandler", "class composition" + ((": " + norm(ast.unparse(bad_compose))[:60]) if bad_compose is not None else "")
+                    + ((" (mixins never composed: %s)" % missing) if missing else ""),
+                    "a mixin is placed after the base class or not composed", line=x.lineno)
     r.guard(12)
     return r
 
